@@ -46,6 +46,55 @@ Proof.
   intros I V. destruct (step_ok p o I V) as [p' [E [_ [A [B [C _]]]]]]. rewrite E. simpl. auto.
 Qed.
 
+(* O4: a call that fails leaves the part exactly as it was; under the invariant the only failing calls are
+   those with a negative time, and they fail with InvalidTimePointException *)
+Lemma rejected_step p o : rejected o -> step p o = (p, OutInvalidTime).
+Proof.
+  destruct o as [ob s e | ob w | t q | t]; simpl; intros R; try contradiction.
+  - unfold add. rewrite R. reflexivity.
+  - assert (E : t <? 0 = true) by lia. rewrite E. reflexivity.
+Qed.
+
+Lemma add_nonneg_ok p ob s e : neg_opt s || neg_opt e = false -> snd (add p ob s e) = OutOk.
+Proof.
+  intros N. unfold add. rewrite N. apply orb_false_iff in N as [Ns Ne].
+  assert (A : forall sd p0 v, neg_opt v = false -> snd (add_opt sd (p0, OutOk) ob v) = OutOk).
+  { intros sd p0 [t|] Hv; simpl in *; [rewrite Hv|]; reflexivity. }
+  destruct (add_opt SStart (p, OutOk) ob s) as [p1 o1] eqn:E1.
+  pose proof (A SStart p s Ns) as H1. rewrite E1 in H1. simpl in H1. subst o1. apply A; auto.
+Qed.
+
+Lemma step_fail_unchanged_lemma p o : InvW p -> snd (step p o) <> OutOk ->
+  fst (step p o) = p /\ snd (step p o) = OutInvalidTime /\ rejected o.
+Proof.
+  intros I H. destruct o as [ob s e | ob w | t q | t].
+  - destruct (neg_opt s || neg_opt e) eqn:N.
+    + rewrite (rejected_step p (OAdd ob s e) N). auto.
+    + exfalso. apply H. simpl. apply add_nonneg_ok; auto.
+  - exfalso. apply H. destruct (step_ok p (ORemove ob w) I Logic.I) as [p' [E _]]. rewrite E. reflexivity.
+  - exfalso. apply H. reflexivity.
+  - destruct (t <? 0) eqn:E.
+    + assert (R : rejected (OGetOrAdd t)) by (simpl; lia). rewrite (rejected_step p _ R). auto.
+    + exfalso. apply H. simpl. rewrite E. reflexivity.
+Qed.
+
+(* ... so the invariant also holds along histories in which rejected calls are interleaved *)
+Lemma mixed_run_invw_lemma ops : forall p, InvW p -> mixed_run p ops -> InvW (run p ops).
+Proof.
+  induction ops as [|o r IH]; simpl; intros p I V; auto.
+  destruct V as [[V1|R] V2]; apply IH; auto.
+  - apply step_invw_lemma; auto.
+  - rewrite (rejected_step p o R). auto.
+Qed.
+
+Lemma mixed_run_inv_lemma ops : forall p, Inv p -> mixed_run p ops -> strict_run p ops -> Inv (run p ops).
+Proof.
+  induction ops as [|o r IH]; simpl; intros p I V S; auto.
+  destruct V as [[V1|R] V2], S as [S1 S2]; apply IH; auto.
+  - apply step_inv_lemma; auto.
+  - rewrite (rejected_step p o R). auto.
+Qed.
+
 (* O3 *)
 Definition links_and_regs (x : point) := (pt x, pprev x, pnext x, pstart x, pend x).
 
@@ -159,3 +208,11 @@ Proof. exact (run_invw_lemma ops (init q0) (proj1 (inv_init_lemma q0))). Qed.
 Lemma reachable_total_lemma q0 ops : valid_run (init q0) ops ->
   forall pre o post, ops = pre ++ o :: post -> snd (step (run (init q0) pre) o) = OutOk.
 Proof. intros V. exact (run_total_lemma ops (init q0) (proj1 (inv_init_lemma q0)) V). Qed.
+
+Lemma reachable_mixed_lemma q0 ops : mixed_run (init q0) ops ->
+  InvW (run (init q0) ops) /\ (strict_run (init q0) ops -> Inv (run (init q0) ops)).
+Proof.
+  intros V. split.
+  - exact (mixed_run_invw_lemma ops (init q0) (proj1 (inv_init_lemma q0)) V).
+  - exact (mixed_run_inv_lemma ops (init q0) (inv_init_lemma q0) V).
+Qed.
